@@ -28,7 +28,7 @@ def budget(tier):
 
 
 def strategy(tier):
-    general = gen_spec(**{**tier_opts(tier), **dict(allow_rels=True, allow_rdep=True, sched="eager", min_trans=2, max_trans=5, allow_alias=False, nonex_rate=2)})
+    general = gen_spec(**{**tier_opts(tier), **dict(allow_rels=True, allow_rdep=True, allow_nm=True, sched="eager", min_trans=2, max_trans=5, allow_alias=False, nonex_rate=2)})
     # one case in four is a relation-heavy design (many small transactions, hub / chain conflict topologies)
     graph = gen_conflict_graph_spec(sched="eager")
     return st.integers(0, 3).flatmap(lambda k: graph if k == 3 else general)
